@@ -137,7 +137,9 @@ def gen(tier: str, seed: int) -> list[Case]:
     per = 3 if tier == "quick" else 8
     oi = seed % 64
     for i in range(n_pk):
-        files = kitchen_sink(rng, gated, i)
+        # every form of the library, also those that a recorded finding of ANOTHER property keeps out of that property's
+        # workload (wrong output is their subject, an aborted run is this one's)
+        files = kitchen_sink(rng, set(), i)
         nbytes = sum(len(v) for v in files.values())
         for _ in range(per):
             opts = osets[oi % 64]
@@ -155,8 +157,6 @@ def gen(tier: str, seed: int) -> list[Case]:
     from ..scenarios import PACKAGE_SCENARIOS
 
     for feat, sfiles, optsets in PACKAGE_SCENARIOS:
-        if feat in gated:
-            continue
         files = {"src/" + k: ({"hex": v.hex()} if isinstance(v, bytes) else v) for k, v in sfiles.items()}
         nbytes = sum(len(v) for v in sfiles.values())
         for opts in optsets:
@@ -253,7 +253,7 @@ def main(tier: str, seed: int) -> int:
     chk.extra["option_combinations_run"] = len({tuple(c.opts[:2] + [o for o in c.opts[2:]]) for c in cases})
     chk.extra["max_steps_observed"] = max_steps
     chk.extra["step_budget"] = f"{STEP_BUDGET_BASE} + {STEP_BUDGET_PER_BYTE} per source byte (Python function starts, sys.monitoring)"
-    chk.extra["snippet_features"] = len([1 for f, _ in sn.SNIPPETS if f not in gated_features()])
+    chk.extra["snippet_features"] = len(sn.SNIPPETS)
     chk.extra["regression_anchor_upstream_snapshots"] = regression_anchor()
     m2 = chk.monitors.get("M2") or {}
     if not m2.get("attached"):
